@@ -10,6 +10,7 @@ Section ArgInd.
   Variable P : arg -> Prop.
   Hypothesis HS : forall s, P (ATermS s).
   Hypothesis HN : forall n i f, P (ATermN n i f).
+  Hypothesis HX : forall s, P (ATermR s).
   Hypothesis HV : forall s, P (AVar s).
   Hypothesis HH : forall s, P (AHdr s).
   Hypothesis HQ : forall s, P (AHdrQ s).
@@ -18,7 +19,7 @@ Section ArgInd.
   Hypothesis HE : forall l r, P l -> P r -> P (AEq l r).
   Fixpoint arg_ind' (a : arg) : P a :=
     match a with
-    | ATermS s => HS s | ATermN n i f => HN n i f | AVar s => HV s | AHdr s => HH s | AHdrQ s => HQ s | ARef s => HR s
+    | ATermS s => HS s | ATermN n i f => HN n i f | ATermR s => HX s | AVar s => HV s | AHdr s => HH s | AHdrQ s => HQ s | ARef s => HR s
     | AFun f args => HF f args ((fix go (l : list arg) : Forall P l :=
                                    match l with [] => Forall_nil P | x :: r => Forall_cons x (arg_ind' x) (go r) end) args)
     | AEq l r => HE l r (arg_ind' l) (arg_ind' r)
@@ -60,7 +61,7 @@ Proof. destruct rest as [|t r]; [reflexivity|]. destruct t; cbn; intros H; try c
 
 (** the first token of an argument *)
 Definition arg_start (t : tok) : Prop :=
-  match t with TStr _ | TNum _ _ _ | TVar _ | THdr _ | THdrQ _ | TRef _ | TName _ => True | _ => False end.
+  match t with TStr _ | TNum _ _ _ | TRegex _ | TVar _ | THdr _ | THdrQ _ | TRef _ | TName _ => True | _ => False end.
 Lemma toks_arg_start : forall a, exists t r, toks_arg a = t :: r /\ arg_start t.
 Proof.
   induction a using arg_ind'; try (eexists; eexists; split; [reflexivity|exact I]).
@@ -109,7 +110,7 @@ Lemma parse_arg_ok : forall a, wf_arg a -> forall f rest, (length (toks_arg a) <
   (no_teq rest -> parse_arg (S f) (toks_arg a ++ rest) = Some (a, rest)).
 Proof.
   induction a using arg_ind'; intros Hwf f0 rest Hf.
-  1-6: match goal with |- (not_eq ?a -> _) /\ _ =>
+  1-7: match goal with |- (not_eq ?a -> _) /\ _ =>
          assert (A: parse_atom (parse_arg f0) f0 (toks_arg a ++ rest) = Some (a, rest)) by reflexivity;
          (split; [intros _; exact A|intros Hr; cbn [parse_arg]; rewrite A; apply finish_atom; exact Hr]) end.
   - (* function *)
@@ -196,7 +197,7 @@ Proof.
   - destruct Hw as (Hl & Hwa & Hww). cbn [toks_comp] in *. rewrite app_length in Hf. rewrite <- app_assoc.
     assert (A := parse_arg_roundtrip a fuel (toks_when w ++ rest) Hwa ltac:(lia) (when_no_teq w rest Hr)).
     assert (W := parse_when_ok w fuel rest Hww ltac:(lia) Hr).
-    destruct a as [s|n i fp|s|s|s|s|f args|l r]; try discriminate Hl.
+    destruct a as [s|n i fp|s|s|s|s|s|f args|l r]; try discriminate Hl.
     + (* a variable: the token after it is not an assignment *)
       cbn [toks_arg app] in *. unfold parse_comp.
       destruct w as [act|].
@@ -214,7 +215,7 @@ Proof.
     destruct Hwa as (Hl & _).
     destruct (toks_arg_start l) as (t & tl & Ht & _).
     assert (Hna: forall v r0, toks_arg (AEq l r) ++ toks_when w ++ rest <> TVar v :: TAssign :: r0).
-    { intros v r0 H. cbn [toks_arg] in H. destruct l as [s|n i fp|s|s|s|s|f args|l1 l2]; try discriminate Hl; cbn in H; discriminate H. }
+    { intros v r0 H. cbn [toks_arg] in H. destruct l as [s|n i fp|s|s|s|s|s|f args|l1 l2]; try discriminate Hl; cbn in H; discriminate H. }
     unfold parse_comp.
     destruct (toks_arg (AEq l r) ++ toks_when w ++ rest) as [|t0 [|t1 r1]] eqn:E.
     + rewrite A. rewrite W. reflexivity.
